@@ -41,8 +41,8 @@ def _slice(byres, arg):
 
 
 def _prove(f):
-    s = z3.Solver(); s.set('timeout', 20000); s.add(f)
-    return s.check() == z3.unsat
+    import zutil
+    return zutil.check(f) == z3.unsat
 
 
 def _loopvars(term):
